@@ -36,7 +36,7 @@ ASSUMPTIONS = ["null-likes (None/NaN/NA) in object columns are the same value", 
                "Excel/SQLite: element tables only, values and index (not dtypes); a save that raises is a refusal "
                "(counted, not alarmed)", "short reads/writes are not injected (json/pickle require full reads by contract)"]
 REACH_PROBES = ["stream_error_fired", "save_raised_as_required", "replica_compared_after_later_calc",
-                "controllers_present_at_save", "groups_present_at_save"]
+                "controllers_present_at_save", "groups_present_at_save", "loaded_net_saved_and_loaded_again"]
 
 FORMATS = [("json_str", 4), ("json_stream", 3), ("json_path", 3), ("json_enc", 2), ("json_enc_stream", 2), ("json_enc_str", 1),
            ("pickle_path", 3),
@@ -69,7 +69,7 @@ def generate(rng, idx, tier):
     for _ in range(rng.randint(8, 25)):
         r = rng.random()
         if r < 0.28:
-            op = {"op": "save_load", "fmt": c08._wchoice(rng, FORMATS)}
+            op = {"op": "save_load", "fmt": c08._wchoice(rng, FORMATS), "again": rng.random() < 0.25}
             if rng.random() < 0.2 and op["fmt"] in ("json_stream", "json_path", "pickle_path", "pickle_stream"):
                 op["fault"] = {"kind": "stream-error", "where": rng.choice(["write", "write", "close"]),
                                "at": round(rng.random(), 4), "errno": rng.choice(["ENOSPC", "EIO"])}
@@ -562,6 +562,22 @@ def _exec_save_load(L, op, i, ctx, tmpdir, since_save):
         if sig not in sigs:
             sigs.append(sig)
             ctx.violation(sig, f"op{i} round trip through {fmt}: {where}: {detail}", op=i)
+    if op.get("again") and not sigs and fmt not in ("excel", "sqlite"):
+        # the loaded net is saved and loaded once more (save - load - save - load): still nothing is lost
+        try:
+            loaded2, exc2, _, _ = save_and_load(loaded, fmt, tmpdir, None, ctx)
+        except Exception as e:
+            loaded2, exc2 = None, e
+        ctx.probe("loaded_net_saved_and_loaded_again")
+        if exc2 is not None:
+            ctx.violation(f"C20|{fmt}|second round trip raised {type(exc2).__name__}",
+                          f"op{i} ({fmt}): saving / loading the loaded net raised {type(exc2).__name__}: {exc2!s:.120}", op=i)
+        elif loaded2 is not None:
+            for kind, where, detail in compare_nets(L, loaded2, fmt)[:3]:
+                sig = f"C20|{fmt}|second round trip:{kind}|{where.split('.')[0]}"
+                if sig not in sigs:
+                    sigs.append(sig)
+                    ctx.violation(sig, f"op{i} second round trip through {fmt}: {where}: {detail}", op=i)
     ctx.conclusive += 1
     ctx.features.append(feature)
     ctx.event("save_load", fmt, "ok", len(cmp_), sigs)
